@@ -152,6 +152,14 @@ def build(spec, pose=True):
         o = magpy.magnet.Tetrahedron(polarization=pol, vertices=p["verts"])
     elif cls == "TriangularMesh":
         o = magpy.magnet.TriangularMesh.from_ConvexHull(polarization=pol, points=p["points"])
+        ctor = p.get("ctor", "hull")
+        if ctor == "mesh":
+            o = magpy.magnet.TriangularMesh.from_mesh(polarization=pol, mesh=np.array(o.mesh))
+        elif ctor == "triangles":
+            o = magpy.magnet.TriangularMesh.from_triangles(
+                polarization=pol, triangles=[magpy.misc.Triangle(polarization=pol, vertices=t) for t in o.mesh])
+        elif ctor == "faces":
+            o = magpy.magnet.TriangularMesh(polarization=pol, vertices=np.array(o.vertices), faces=np.array(o.faces))
     elif cls == "Triangle":
         o = magpy.misc.Triangle(polarization=pol, vertices=p["verts"])
     elif cls == "Polyline":
@@ -185,6 +193,19 @@ def special_dir(rng, zero=True):
 
 def gen_params(rng, cls, scale=1.0):
     p = gen_params_geom(rng, cls, scale)
+    if cls in ("Tetrahedron", "TriangularMesh", "Triangle", "Polyline") and rng.random() < 0.3:
+        # bodies far off their local origin (the local frame origin is not the body's centre)
+        off = np.array([rng.choice([-10.0, 7.0, 0.0]) * scale for _ in range(3)])
+        key = "points" if cls == "TriangularMesh" else "verts"
+        p[key] = (np.array(p[key], dtype=float) + off).tolist()
+    if cls == "TriangularMesh":
+        p["ctor"] = rng.choice(["hull", "mesh", "triangles", "faces"])
+    if cls == "Cuboid" and rng.random() < 0.4:          # every axis the long one
+        ax = rng.randrange(3)
+        p["dim"][ax] = p["dim"][ax] * rng.choice([8.0, 30.0])
+    if cls == "Cylinder" and rng.random() < 0.4:
+        ax = rng.randrange(2)
+        p["dim"][ax] = p["dim"][ax] * rng.choice([8.0, 30.0])
     if cls in MAGNETS and "pol" not in p and rng.random() < 0.5:
         p["pol"] = special_dir(rng)
     return p
@@ -200,7 +221,11 @@ def gen_params_geom(rng, cls, scale=1.0):
     if cls == "CylinderSegment":
         r1 = u(0.0, 1.5) if rng.random() < 0.8 else 0.0
         p1 = round(rng.uniform(-360, 300), 1)
-        return {"dim": [r1, r1 + u(0.2, 2), u(0.3, 3), p1, p1 + round(rng.uniform(10, 360), 1)]}
+        span = rng.choice([round(rng.uniform(10, 359), 1), 359.9, 360.0, 0.5, 180.0])
+        if span == 360.0:
+            p1 = float(round(p1))
+        r2 = r1 + (u(0.2, 2) if rng.random() < 0.8 else 1e-3 * scale)       # thin shells
+        return {"dim": [r1, r2, u(0.3, 3), p1, round(p1 + span, 1)]}
     if cls == "Circle":
         return {"d": u(0.3, 3), "current": rng.choice([1.5, -2.0, 0.0])}
     if cls == "Sphere":
@@ -233,7 +258,8 @@ def gen_params_geom(rng, cls, scale=1.0):
         hand = rng.choice(["right", "left"])
         if k == 0:
             return {"pixel": [0.0, 0.0, 0.0] if rng.random() < 0.5 else vec(-0.5, 0.5), "handedness": hand}
-        return {"pixel": [vec(-0.5, 0.5) for _ in range(k)], "handedness": hand}
+        off = [0.0, 0.0, 0.0] if rng.random() < 0.7 else [3.0 * scale, -2.0 * scale, 0.0]
+        return {"pixel": [[a + b for a, b in zip(vec(-0.5, 0.5), off)] for _ in range(k)], "handedness": hand}
     raise ValueError(cls)
 
 
@@ -655,8 +681,8 @@ def check_single(spec):
         try:
             do_show([obj], kw)
         except IndexError:
-            return None
-        return ("frames", "selection with an entry below -len(path) did not raise")
+            pass
+        return None      # neither raising nor any particular drawing is demanded by the property for such a selection
     dr = do_show([obj], kw)
     traces, unit = to_metres(dr)
     want = spec.get("units", "default")
@@ -1040,6 +1066,286 @@ def check_scene(spec):
             for p in o._position:
                 if len(wp) == 0 or np.min(np.linalg.norm(wp - p, axis=1)) > 1e-9 * scale:
                     return ("path-line", "a member's path position is missing from the drawn path lines")
+    return None
+
+
+# ---------------------------------------------------------------------------------------------------------
+# wave 4: many objects / twins / duplicates, animation of several path lengths, histories, entry points
+def clouds_of(traces):
+    mk = [t["xyz"] for t in traces if t["type"] == "scatter3d" and t["mode"] == "markers"]
+    return {"mesh3d": vertex_cloud(traces, "mesh3d"), "path": vertex_cloud(traces, "path"),
+            "lines": vertex_cloud([t for t in traces if not (t["type"] == "scatter3d" and t["mode"] == "markers")], "lines"),
+            "markers": np.vstack(mk) if mk else np.zeros((0, 3))}
+
+
+def uniq(a, tol):
+    return np.unique(np.round(a / (tol * 1e3)), axis=0) * (tol * 1e3) if len(a) else a
+
+
+def clouds_differ(a, b, tol, as_sets=False):
+    for kind in ("mesh3d", "lines", "path", "markers"):
+        x, y = (uniq(a[kind], tol), uniq(b[kind], tol)) if as_sets else (a[kind], b[kind])
+        if not same_cloud(x, y, tol):
+            return kind
+    return None
+
+
+def gen_many(rng):
+    """>= 16 objects of interleaved classes in one call, twins (same geometry, other excitation), one object
+    passed twice"""
+    leaves = []
+    for t in range(rng.randint(16, 19)):
+        sp = gen_single(rng, ALL_CLASSES[(5 * t) % len(ALL_CLASSES)])
+        sp.pop("frames"), sp.pop("units"), sp.pop("backend")
+        leaves.append(sp)
+        if t % 5 == 0:
+            tw = copy.deepcopy(sp)          # twin: same geometry and pose, other excitation
+            for key, val in (("pol", [-0.3, 0.0, 0.2]), ("current", -0.7), ("moment", [0.0, 0.0, -1.0])):
+                if key in tw["params"] or (key == "pol" and tw["cls"] in MAGNETS):
+                    tw["params"][key] = val
+            leaves.append(tw)
+    return {"kind": "many", "cls": "Collection", "leaves": leaves, "frames": rng.choice([None, 2, [0, -1]]),
+            "units": rng.choice(["auto", "m", "mm"]), "backend": "plotly", "pos": [0, 0, 0], "rotvec": [0, 0, 0]}
+
+
+def check_many(spec):
+    objs = [build(sp) for sp in spec["leaves"]]
+    for o in objs:
+        if spec_frames(len(o._position), spec["frames"]) is None:
+            return None
+    kw = {"backend": "plotly", "return_fig": True, "units_length": spec["units"], "style_sizemode": "absolute"}
+    if spec["frames"] is not None:
+        kw["style_path_frames"] = spec["frames"]
+    whole = clouds_of(to_metres(do_show(objs + [objs[0], objs[-1]], kw))[0])       # two objects passed twice
+    parts = []
+    for o in objs:
+        parts += to_metres(do_show([o], kw))[0]
+    scale = max(np.abs(o._position).max() for o in objs) + 5.0
+    bad = clouds_differ(whole, clouds_of(parts), 1e-9 * scale, as_sets=True)
+    if bad:
+        return ("placed-at-pose" if bad != "path" else "path-line",
+                f"{bad} vertices of {len(objs)} objects shown together differ from the objects drawn alone")
+    return None
+
+
+def gen_anim_scene(rng):
+    a = gen_single(rng, rng.choice(["Cuboid", "Cylinder", "Tetrahedron", "Sphere"]))
+    b = gen_single(rng, rng.choice(["Cuboid", "CylinderSegment", "TriangularMesh"]))
+    m0, M = rng.choice([(2, 4), (3, 5), (2, 5), (1, 3)])
+    pa, ra = gen_pose(rng, max(m0, 2))
+    pb, rb = gen_pose(rng, M)
+    a["pos"], a["rotvec"] = (pa[:m0], ra[:m0])
+    b["pos"], b["rotvec"] = pb, rb
+    return {"kind": "anim-scene", "cls": "Collection", "leaves": [a, b], "nest": rng.random() < 0.5,
+            "pos": [0, 0, 0], "rotvec": [0, 0, 0]}
+
+
+def check_anim_scene(spec):
+    """objects with paths of different lengths animated together: frame k shows each object at path index
+    min(k, its last index)"""
+    objs = [build(sp) for sp in spec["leaves"]]
+    show_objs = [objs[0], magpy.Collection(objs[1])] if spec.get("nest") else objs
+    M = max(len(o._position) for o in objs)
+    kw = {"backend": "plotly", "return_fig": True, "units_length": "m", "style_magnetization_show": False, **DECOR_OFF}
+    fig = magpy.show(*show_objs, animation=True, **kw)
+    if len(fig.frames) != M:
+        return ("frames", f"animation has {len(fig.frames)} frames for a longest path of {M}")
+    locs = []
+    for sp in spec["leaves"]:
+        ref = {**sp, "pos": [0.0, 0.0, 0.0], "rotvec": [0.0, 0.0, 0.0]}
+        locs.append(vertex_cloud(to_metres(do_show([build(ref)], kw))[0], "mesh3d"))
+    scale = max(np.abs(o._position).max() for o in objs) + 5.0
+    for k, fr in enumerate(fig.frames):
+        got = vertex_cloud(to_metres(drawn_plotly(fig, data=fr.data))[0], "mesh3d")
+        want = []
+        for o, loc in zip(objs, locs):
+            e = min(k, len(o._position) - 1)
+            want.append(o._orientation[e].apply(loc) + o._position[e])
+        if not same_cloud(got, np.vstack(want), 1e-9 * scale):
+            return ("placed-at-pose", f"animation frame {k}: objects are not at path index min({k}, last)")
+    return None
+
+
+MUTATIONS = ["move-top", "rotate-top", "move-child", "setpos-child", "setori-child", "style-frames", "style-color",
+             "resize", "remove", "add", "defaults-frames", "defaults-reset", "reset-path", "bad-show", "read"]
+
+
+def apply_mutation(top, objs, m, extra):
+    k = m["op"]
+    o = objs[m["i"] % len(objs)]
+    if k == "move-top":
+        top.move(m["v"])
+    elif k == "rotate-top":
+        top.rotate(R.from_rotvec(m["v"]), anchor=m.get("anchor"))
+    elif k == "move-child":
+        o.move([m["v"], [2 * c for c in m["v"]]])
+    elif k == "setpos-child":
+        o.position = [m["v"], [c + 1 for c in m["v"]], [c - 1 for c in m["v"]]]
+    elif k == "setori-child":
+        o.orientation = R.from_rotvec(m["v"])
+    elif k == "style-frames":
+        o.style.path.frames = m["frames"]
+    elif k == "style-color":
+        o.style.update(color="#123456", opacity=0.5)
+    elif k == "resize":
+        for attr, val in (("dimension", None), ("diameter", 1.7), ("moment", (0.0, -2.0, 0.0)), ("pixel", [(0.2, 0, 0), (0, 0.3, 0)])):
+            if hasattr(o, attr) and getattr(o, attr) is not None:
+                if val is None:
+                    val = np.array(getattr(o, attr), dtype=float)
+                    val[:3] = val[:3] * 1.5            # lengths only (a CylinderSegment's angles stay)
+                setattr(o, attr, val)
+                break
+        else:
+            if hasattr(o, "vertices") and not hasattr(o, "faces"):
+                o.vertices = np.array(o.vertices, dtype=float)[::-1] * 1.5 + 0.25
+    elif k == "remove":
+        if getattr(o, "parent", None) is not None and len(objs) > 1:
+            o.parent.remove(o)
+    elif k == "add":
+        if extra.parent is None:
+            top.add(extra)
+    elif k == "defaults-frames":
+        magpy.defaults.display.style.base.path.frames = m["frames"]
+    elif k == "defaults-reset":
+        magpy.defaults.reset()
+        magpy.defaults.reset()
+    elif k == "reset-path":
+        o.reset_path()
+    elif k == "read":
+        _ = (o.style.as_dict(), o.position, top.children_all if hasattr(top, "children_all") else None, repr(o))
+    elif k == "bad-show":
+        import matplotlib.pyplot as plt
+        try:
+            magpy.show(top, backend="plotly", return_fig=True, units_length="xx")
+        except ValueError:
+            pass
+        finally:
+            plt.close("all")
+
+
+def gen_history(rng):
+    sc = gen_scene(rng, ALL_CLASSES)
+    sc["kind"] = "history"
+    sc["frames"] = None
+    sc["units"] = rng.choice(["m", "mm", "auto"])
+    sc["extra"] = {**gen_single(rng, rng.choice(["Cuboid", "Polyline", "Sphere"]))}
+    muts = []
+    for _ in range(rng.randint(2, 5)):
+        muts.append({"op": rng.choice(MUTATIONS), "i": rng.randrange(8),
+                     "v": [round(rng.uniform(-2, 2), 2) for _ in range(3)],
+                     "anchor": rng.choice([None, 0, [1.0, 0.5, -1.0]]), "frames": rng.choice([1, 2, [0], [0, -1]])})
+    sc["mutations"] = muts
+    sc["shows"] = rng.choice([1, 2])
+    return sc
+
+
+def check_history(spec):
+    """show -> public mutations (moves, setters, tree edits, style and defaults updates/resets, a rejected show,
+    reads) -> show: the second figure is the figure of a twin built directly in the final state"""
+    kw = {"backend": "plotly", "return_fig": True, "units_length": spec["units"], "style_sizemode": "absolute"}
+    magpy.defaults.reset()
+    try:
+        top, objs = build_scene(spec)
+        extra = build(spec["extra"])
+        for _ in range(spec.get("shows", 1)):
+            do_show([top], kw)
+        for m in spec["mutations"]:
+            apply_mutation(top, objs, m, extra)
+        frames_now = [o.style.path.frames for o in all_objs(top) if not hasattr(o, "children")]
+        dflt = magpy.defaults.display.style.base.path.frames
+        for o, fr in zip([o for o in all_objs(top) if not hasattr(o, "children")], frames_now):
+            if spec_frames(len(o._position), fr if fr is not None else dflt) is None:
+                return None
+        got = clouds_of(to_metres(do_show([top], kw))[0])
+        magpy.defaults.reset()
+        top2, objs2 = build_scene(spec)
+        extra2 = build(spec["extra"])
+        for m in spec["mutations"]:
+            if m["op"] != "bad-show":
+                apply_mutation(top2, objs2, m, extra2)
+        want = clouds_of(to_metres(do_show([top2], kw))[0])
+    finally:
+        magpy.defaults.reset()
+    scale = max(np.abs(o._position).max() for o in all_objs(top)) + 5.0
+    bad = clouds_differ(got, want, 1e-9 * scale)
+    if bad:
+        return ("placed-at-pose" if bad != "path" else "path-line",
+                f"{bad} vertices after show/mutate/show differ from a fresh twin in the same final state")
+    return None
+
+
+ENTRY_POINTS = ["args", "list", "collection-method", "context", "plotly-canvas", "mpl-canvas", "subplot-col2",
+                "frames-style-dict", "frames-style-nested", "frames-on-object", "markers", "markers-ndarray"]
+
+
+def gen_entry(rng):
+    sc = gen_scene(rng, MAGNETS + CURRENTS)
+    sc["kind"] = "entry"
+    sc["frames"] = rng.choice([2, [0, -1], 1])
+    sc["units"] = rng.choice(["m", "mm"])
+    sc["entry"] = rng.choice(ENTRY_POINTS)
+    return sc
+
+
+def check_entry(spec):
+    """the same scene through every public way of calling show / passing the frame selection draws the same"""
+    import matplotlib.pyplot as plt
+    import plotly.graph_objects as go
+    top, objs = build_scene(spec)
+    for o in objs:
+        if spec_frames(len(o._position), spec["frames"]) is None:
+            return None
+    base = {"units_length": spec["units"], "style_path_frames": spec["frames"]}
+    ref = clouds_of(to_metres(do_show([top], {"backend": "plotly", "return_fig": True, **base}))[0])
+    e = spec["entry"]
+    marks = np.array([[1.0, 2.0, 3.0], [-4.0, 0.5, 6.0]])
+    try:
+        if e == "args":
+            dr = drawn_plotly(magpy.show(*top.children, top, backend="plotly", return_fig=True, **base))
+        elif e == "list":
+            dr = drawn_plotly(magpy.show([top], backend="plotly", return_fig=True, **base))
+        elif e == "collection-method":
+            dr = drawn_plotly(top.show(backend="plotly", return_fig=True, **base))
+        elif e == "context":
+            with magpy.show_context(top, backend="plotly", return_fig=True, **base) as ctxm:
+                magpy.show()
+            dr = drawn_plotly(ctxm.show_return_value)
+        elif e == "plotly-canvas":
+            f = go.Figure()
+            magpy.show(top, canvas=f, canvas_update=True, **base)
+            dr = drawn_plotly(f)
+        elif e == "mpl-canvas":
+            ax = plt.figure().add_subplot(projection="3d")
+            magpy.show(top, canvas=ax, canvas_update=True, style_magnetization_show=False, **base)
+            dr = drawn_matplotlib(ax.figure)
+            ref = clouds_of(to_metres(do_show([top], {"backend": "matplotlib", "return_fig": True,
+                                                        "style_magnetization_show": False, **base}))[0])
+        elif e == "subplot-col2":
+            dr = drawn_plotly(magpy.show(top, backend="plotly", return_fig=True, col=2, **base), scene="scene2")
+        elif e == "frames-style-dict":
+            dr = drawn_plotly(magpy.show(top, backend="plotly", return_fig=True, units_length=spec["units"],
+                                         style={"path_frames": spec["frames"]}))
+        elif e == "frames-style-nested":
+            dr = drawn_plotly(magpy.show(top, backend="plotly", return_fig=True, units_length=spec["units"],
+                                         style_path={"frames": spec["frames"]}))
+        elif e == "frames-on-object":
+            for o in all_objs(top):
+                o.style.path.frames = spec["frames"]
+            dr = drawn_plotly(magpy.show(top, backend="plotly", return_fig=True, units_length=spec["units"]))
+        else:
+            dr = drawn_plotly(magpy.show(top, backend="plotly", return_fig=True,
+                                         markers=marks if e == "markers-ndarray" else marks.tolist(), **base))
+            ref["markers"] = np.array([[1.0, 2.0, 3.0], [-4.0, 0.5, 6.0]])
+            if not np.array_equal(marks, [[1.0, 2.0, 3.0], [-4.0, 0.5, 6.0]]):
+                return ("unmodified-arguments", "show changed the markers array passed by the caller")
+    finally:
+        plt.close("all")
+    got = clouds_of(to_metres(dr)[0])
+    scale = max(np.abs(o._position).max() for o in objs) + 8.0
+    bad = clouds_differ(got, ref, 1e-9 * scale)
+    if bad:
+        return ("placed-at-pose" if bad not in ("path",) else "path-line",
+                f"{bad} vertices drawn through entry point {e!r} differ from show(collection)")
     return None
 
 
@@ -1747,7 +2053,7 @@ def units_correspondence(ctx):
 # ---------------------------------------------------------------------------------------------------------
 def search(ctx, big):
     rng = ctx.rng
-    mult = 4 if big else 1
+    mult = 2 if big else 1
     per_cls = ctx.n(10, 300) * mult
     # 1. every class alone, generic poses / paths / frames / units
     for cls in ALL_CLASSES:
@@ -1764,9 +2070,12 @@ def search(ctx, big):
                 report(ctx, spec, res)
     # 1b. fixed battery: every class at the scale decades 1e-3 and 1e2, every branch of make_Triangle
     for cls in ALL_CLASSES:
-        for scale in (1e-3, 1e2):
-            for variant in range(3 if cls == "Triangle" else 1):
+        for scale in (1e-6, 1e-3, 1e2, 1e3):
+            for variant in range(3 if cls == "Triangle" and scale in (1e-3, 1e2) else 1):
                 spec = gen_single(rng, cls, scale=scale)
+                if scale in (1e-6, 1e3):        # the whole scene at that length scale, poses included
+                    spec["pos"] = (np.array(spec["pos"], dtype=float) * scale).tolist()
+                    spec["units"] = rng.choice(["auto", "m", "µm" if scale < 1 else "km"])
                 if cls == "Triangle":
                     v = np.array(spec["params"]["verts"], dtype=float)
                     spec["params"]["pol"] = [[0.1, 0.2, 0.3], [0.0, 0.0, 0.0], None][variant]
@@ -1811,6 +2120,22 @@ def search(ctx, big):
             ctx.case(("orientation", json.dumps(spec, sort_keys=True)), True)
             if res is not None:
                 report(ctx, {**spec, "kind": "orientation"}, res, fn=check_orientation_symbols)
+    # 1e. wave 4: many objects / twins / duplicates; animated scenes of mixed path lengths; histories; entry points
+    for name, gen, fn, nq, nt in (("many", gen_many, check_many, 2, 12), ("anim-scene", gen_anim_scene, check_anim_scene, 6, 60),
+                                  ("history", gen_history, check_history, 14, 200), ("entry", gen_entry, check_entry, 12, 120)):
+        for t in range(ctx.n(nq, nt) * mult):
+            spec = gen(rng)
+            if name == "entry":
+                spec["entry"] = ENTRY_POINTS[t % len(ENTRY_POINTS)]
+            res = safe_check(fn, spec)
+            ctx.case((name, json.dumps(spec, sort_keys=True)), True)
+            ctx.bump(name + (":" + spec["entry"] if name == "entry" else ""))
+            if name == "history":
+                for m in spec["mutations"]:
+                    ctx.bump("history-op:" + m["op"])
+            if res is not None:
+                trig = spec.get("entry") or (",".join(sorted({m["op"] for m in spec["mutations"]})) if name == "history" else spec.get("shape", ""))
+                ctx.impl_fail(f"{res[0]}/{name}:{trig}", res[1], spec)
     # 2. scenes with collections and nesting
     for t in range(ctx.n(25, 700) * mult):
         spec = gen_scene(rng, ALL_CLASSES)
@@ -1867,7 +2192,8 @@ def search(ctx, big):
 
 
 KIND_OF = {"check_single": "single", "check_mag_arrows": "mag-arrows", "check_orientation_symbols": "orientation"}
-CHECKS = {"single": check_single, "mag-arrows": check_mag_arrows, "orientation": check_orientation_symbols, "scene": check_scene, "animation": check_animation, "mpl-sliced": check_mpl_sliced}
+CHECKS = {"many": check_many, "anim-scene": check_anim_scene, "history": check_history, "entry": check_entry,
+          "single": check_single, "mag-arrows": check_mag_arrows, "orientation": check_orientation_symbols, "scene": check_scene, "animation": check_animation, "mpl-sliced": check_mpl_sliced}
 
 
 def run(ctx):
